@@ -229,7 +229,7 @@ def _err_exit(p):
         # (the return block is shared: an explicit `return Err(format!(..))` reaches it as ordinary control flow,
         # with the return place already holding the Err)
         r0 = (p.env or {}).get(0) if hasattr(p, "env") else None
-        return isinstance(r0, tuple) and len(r0) > 2 and r0[0] == "agg" and r0[2] == "Err"
+        return isinstance(r0, tuple) and bool(r0) and (r0[0] == "from_residual" or (len(r0) > 2 and r0[0] == "agg" and r0[2] == "Err"))
     r = p.outcome[1]
     return isinstance(r, tuple) and bool(r) and (r[0] == "from_residual" or (r[0] == "agg" and len(r) > 2 and r[2] == "Err"))
 
